@@ -539,7 +539,8 @@ fn kind_of(w: &str) -> &str {
 }
 
 const FIXED: &[&str] = &[
-    "u8", "i8", "u16", "u16le", "u16be", "i16", "i16be", "u32", "u32be", "i32le", "u64", "i64be", "f32", "f32be", "f64", "f64le",
+    "u8", "u8le", "u8be", "i8", "i8le", "i8be", "u16", "u16le", "u16be", "i16", "i16le", "i16be", "u32", "u32le", "u32be", "i32", "i32le", "i32be", "u64",
+    "u64le", "u64be", "i64", "i64le", "i64be", "f32", "f32le", "f32be", "f64", "f64le", "f64be",
 ];
 
 fn gen_step(rng: &mut Rng, sim: &Sim) -> Step {
